@@ -374,6 +374,7 @@ def main(rep, tier, seed):
     corpus = load_corpus()
     items = corpus + gen_cases(rng, tier)
     outl, bad, errors = correspond(binpath, items, "c16")
+    rep.extra["build_profiles"] = F.profile_phase(rep, "c16", items, outl, profiles=("release",)) if not errors and len(outl) == len(items) else {}
     for name, msg in errors:
         rep.violation("correspondence_error_" + name.replace("/", "_"), {"kind": "correspondence could not be evaluated", "where": name, "log": msg}, no_input=True)
     for idx in bad[:3]:
